@@ -118,15 +118,17 @@ reg('C02', 'other',
     MACHINE + ' The abstract language of the scanner model stands for the seven interpreters (the scanner is generic over L).',
     T_VM, 'DESIGN.md §10.3')
 reg('C03', 'other',
-    [_c03_sites, only(scanvm.rule_validator_entry, r'^result\|'), lexeval.rule_digit_ops, progress.rule_loops, progress.rule_recursion, scanvm.rule_scanner_total,
+    [_c03_sites, only(scanvm.rule_validator_entry, r'^result\|'), lexeval.rule_digit_ops, progress.rule_loops, progress.rule_recursion, scanvm.rule_scanner_total, sentences.rule_scale_stacks,
      only(textvm.rule_tokenizer, r'^no-panic$'), only(textvm.rule_word_splitter, r'^no-panic$'), only(lexeval.rule_split_closure, r'\|distinct$'), only(dsvm.rule_builder_cases, r'^no-panic$')],
     "B1 the complete inventory of panic-capable sites in the library MIR (Assert terminators + calls to partial callees) with each site discharged "
     "by a dominating guard (difference-constraint prover over branch facts), constant call-site arguments, constant constructor input or a named "
     "instance whose guards are checked; a site the prover cannot discharge is reported only if the bounded case tables of the abstract machine that "
     "cover its function also reach a panic (otherwise it is listed as BOUNDED). V03: the stream entry points on every token script x thresholds "
     "(NaN, inf, negative), text2digits for every answer of the group interpreter (an empty result is an error, never formatted), the tokenizer on all "
-    "class strings and the builder on all operation sequences reach no panic site. B2 every loop consumes from an iterator; recursion inventory = the "
-    "confirmed bounded set.",
+    "class strings and the builder on all operation sequences reach no panic site. S03-SCALE-STACKS: replace_numbers_in_text, interpreted end to end in "
+    "each real language, on every order of one to three scale words after 1 / 20 / 999 (values beyond 2^64, 30+ digit texts; glued compounds in de/nl/it) "
+    "reaches no panic site; the format functions are evaluated on 20-, 26- and 321-digit builders. B2 every loop consumes from an iterator; recursion "
+    "inventory = the confirmed bounded set.",
     'Totality as a site inventory (every panic-capable MIR site discharged by the prover, else covered by a panic-free bounded case table) plus loop / '
     'recursion progress.',
     'Trusted: std/daachorse/phf do not panic on valid arguments; allocation failure and stack exhaustion out of scope. BOUNDED discharges are weaker '
@@ -187,11 +189,13 @@ reg('C08', 'other',
     T_LEX + '; ' + T_VM, 'DESIGN.md §10.2, §10.4')
 reg('C09', 'other',
     [scanvm.rule_lone_policy, sentences.rule_threshold_in_sentences],
-    "V09 on every token script (length <= 4, 5 thorough) over {single-digit word, two-digit word, ordinal, linking word, ordinary word, comma, period} "
+    "V09 on every token script (length <= 4, 5 thorough) over {single-digit word, two-digit word, ordinal, linking word, decimal separator word, ordinary word, comma, period} "
     "and thresholds 0, 1, 10, 21, inf, NaN (+ 2, 100, -1 thorough): the recognised numbers are the same at every threshold; the reported occurrences "
     "are exactly the recognised numbers minus those small (one digit or ordinal, value < t) and isolated (no same-kind number adjacent once non-breakers "
     "are ignored); threshold 0 / NaN report all; what breaks a sequence is tabulated per token class (alphabetic non-linking word, lone period incl. "
-    "with Unicode spaces; not commas, digits, ellipses, linking words in any case). " + MACHINE,
+    "with Unicode spaces; not commas, digits, ellipses, linking words in any case); scripts in which a separator word ends up outside every number are "
+    "counted but not compared (the statement does not say whether it separates). S09: the same policy on generated sentences in the seven languages "
+    "at thresholds 0, 3, 10, 100, NaN, incl. a lone digit next to a decimal on either side. " + MACHINE,
     'The hold/release policy compared, on the scanner\'s complete case tables, with the policy as the property states it.',
     MACHINE, T_VM, 'DESIGN.md §10.3')
 reg('C10', 'other',
@@ -232,7 +236,8 @@ reg('C13', 'proof',
     "case table (each literal + a string equal to none) maps the seven codes to their languages and everything else to None. C-NO-DOWNCAST. Since every "
     "API function is generic over L: LangInterpreter and reaches the language only through trait methods, facade and concrete type perform identical calls.",
     'Proof by complete case analysis: 56 (method, variant) delegation obligations, 14 constructor obligations and the complete case table of the code '
-    'function, each obtained by interpreting the function\'s MIR with opaque / symbolic arguments.',
+    'function, each obtained by interpreting the function\'s MIR with opaque / symbolic arguments. If a future tree looks the code up by anything other '
+    'than equality with literals (ordering, hashing), the ISO clause is decided on a bounded set of concrete strings instead and its verdicts are prefixed BOUNDED.',
     'Trusted: rustc name resolution and MIR, the abstract machine, the frozen ISO 639-1 table. Closed world: user-written interpreters are outside the claim.',
     'static analysis: abstract interpretation of the facade\'s MIR with opaque arguments (complete case table per method x variant) + inventory rules',
     'DESIGN.md §10.6', trusted=['ISO 639-1 table frozen in rules/facade.py'])
@@ -266,11 +271,13 @@ reg('C16', 'other',
     'Not decided: the scanner-level split of "n zero" for every language (covered for the abstract language by C07/C15 tables).',
     T_LEX + '; ' + T_VM, 'DESIGN.md §10.2, §10.4')
 reg('C17', 'other',
-    [textflow.rule_ws_api, textvm.rule_tokenizer, scanvm.rule_ws_scanner, only(scanvm.rule_validator_entry, r'^words\|(ws|plain)\|'), sentences.rule_ws_in_sentences],
+    [textflow.rule_ws_api, textvm.rule_tokenizer, scanvm.rule_ws_scanner, only(scanvm.rule_validator_entry, r'^words\|(ws|plain)\|'), sentences.rule_ws_in_sentences, sentences.rule_ws_context_sentences],
     "B10 no ASCII-only whitespace facility anywhere in the library (call and fn-item inventory); V02-TOKENIZER separators are maximal non-alphanumeric "
     "runs for every class string incl. 2- and 3-byte spaces; V17 the scanner's case table is unchanged when whitespace tokens are replaced by other "
     "Unicode whitespace, when whitespace tokens are added at either end, and when the whitespace glued to punctuation tokens changes; text2digits splits "
-    "on Unicode whitespace (NBSP, thin, ideographic space) and ignores leading / trailing whitespace.",
+    "on Unicode whitespace (NBSP, thin, ideographic space) and ignores leading / trailing whitespace. S17: generated sentences re-spaced (tabs, newlines, "
+    "NBSP, leading / trailing runs) give the same numbers; S17-WS-AMBIGUOUS-WORDS: the sentences with English 'o' / French 'neuf', whose reading is decided "
+    "by a pass over token positions, are read the same under leading / trailing whitespace and wider inner runs.",
     'Whitespace-insensitivity decided by an API inventory plus case tables of tokenizer, scanner and validator entry under whitespace substitution.',
     MACHINE, 'static analysis: callee inventory; ' + T_VM, 'DESIGN.md §10.3')
 reg('C18', 'other',
